@@ -42,7 +42,7 @@ structure PoolIter (c c' : Ctl.State (Load.State τ) τ) (new : List SOut) : Pro
   outs : c'.env.outs = c.env.outs ++ new
   nb : NoBroken c'.env
   led : (c'.sched.collection = c.sched.collection ∧ c.sched.pending = runsOf new ++ c'.sched.pending) ∨
-        (c.sched.collection = none ∧ ∃ col, c'.sched.collection = some col ∧
+        (c.sched.collection = none ∧ c.shuttingdown = false ∧ ∃ col, c'.sched.collection = some col ∧
           List.range col.length = runsOf new ++ c'.sched.pending)
 
 theorem PoolIter.same {c c' : Ctl.State (Load.State τ) τ} (h1 : c'.env = c.env) (h2 : c'.sched.pending = c.sched.pending)
@@ -165,7 +165,9 @@ theorem pool_iteration {c c' : Ctl.State (Load.State τ) τ} {ev : Ctl.Event τ}
     simp only [handle, collectionfinish] at h1
     split at h1
     · simp only [Except.ok.injEq] at h1; subst h1; exact ⟨[], PoolIter.same rfl rfl rfl hb⟩
-    · split at h1
+    · rename_i hsd
+      have hsd' : c.shuttingdown = false := by cases hh : c.shuttingdown <;> simp_all
+      split at h1
       · simp only [Except.ok.injEq] at h1; subst h1; exact ⟨[], PoolIter.same rfl rfl rfl hb⟩
       · obtain ⟨r, h2, h3⟩ := bind_ok.1 h1
         obtain ⟨hstep, _⟩ := callSched_step (show callSched loadI c (.addNodeCollection n ids) = .ok (r.1, r.2) by rw [h2])
@@ -200,7 +202,9 @@ theorem pool_iteration {c c' : Ctl.State (Load.State τ) τ} {ev : Ctl.Event τ}
           refine ⟨new, ⟨by rw [← y2, o1, hanc.1], by rw [← y2]; exact o2, ?_⟩⟩
           rw [← y1]
           rw [hanc.2.2, hanc.2.1] at o3
-          exact o3
+          rcases o3 with o3 | ⟨o4, o5⟩
+          · exact Or.inl o3
+          · exact Or.inr ⟨o4, hsd', o5⟩
         · simp only [Except.ok.injEq] at h3; subst h3
           exact ⟨[], PoolIter.same hanc.1 hanc.2.1 hanc.2.2 hb⟩
   | testreport n failed =>
